@@ -202,8 +202,36 @@ def run_template(rep, crate, cfg):
         cl = crate.fns[clpath]
         tbc = terms.TermBuilder(cl)
         exits = loop_exit_conds(cl, tbc)
-        chk(len(exits) == 1, "KL-one-scan", "KL(n) has one scan loop with one early exit", None)
         crets = [t for _, t in tbc.return_terms()]
+        formB = None
+        if len(exits) == 0 and len(crets) == 1:
+            # form B: TABLE.iter().rev()[.map(..)].find(|k'| k' <= budget)[.map(..)].unwrap_or(0)
+            from .. import seqs
+            n = ("sym", "n")
+            body = canon(terms.subst(crets[0], {1: env, 2: n}), crate)
+            mB = match(("call", "std::option::Option::<T>::unwrap_or", (V("opt"), V("dflt"))), body)
+            pf = seqs.parse_first(crate, mB["opt"]) if mB is not None else None
+            if pf is not None:
+                formB = (pf, strip(mB["dflt"]), n)
+        chk(len(exits) == 1 or formB is not None, "KL-one-scan",
+            "KL(n) has one scan loop with one early exit (or is one find over the reversed table)", None)
+        if formB is not None:
+            pf, dflt, n = formB
+            from . import scan as scanmod
+            cnt = pf["count"]
+            tab = cnt[1] if cnt[0] == "len" else None
+            ct = scanmod._const_table(crate, tab) if tab is not None else None
+            tabok = ct is not None and ct[0].endswith("SYSTEMATIC_INDICES_AND_PARAMETERS")
+            j = ("op", "Sub", ("op", "Sub", cnt, ("const", 1)), seqs.IX)
+            key = strip(canon(("field", ("index", tab, j), 0), crate)) if tab is not None else None
+            cond = strip(canon(pf["cond"], crate))
+            res = strip(canon(pf["result"], crate))
+            rev_ok = tabok and terms.find(j, pf["cond"]) is not None
+            chk(tabok and rev_ok, "KL-descending-table2", "KL(n) scans Table 2 from the largest K' downwards", cond)
+            X = ("ceildiv", T, ("op", "Mul", ALIGN, n))
+            want = terms.normalise(("op", "Le", key, ("op", "Div", WS, ("op", "Mul", ALIGN, X)))) if key is not None else None
+            chk(cond == want, "KL-condition", "KL(n) accepts the first K' with K' <= floor(WS / (Al * ceil(T / (Al * n))))", cond)
+            chk(res == key and dflt == ("const", 0), "KL-result", "KL(n) returns that K' (or 0 when none fits)", res)
         if len(exits) == 1:
             b, c, truth, head = exits[0]
             # instantiate with the environment of the call site and a symbolic n
